@@ -16,7 +16,8 @@ META = {
                    "CONNECTION_HEADERS (the frozen five names) and for HOST; (C13.5) HttpConnection::send_request writes in each arm the constant version() reports for that arm "
                    "and sends on that arm's sender; (C13.6) handshake_h2 is reached exactly on protocol == Http2 or (Http1 and ALPN == h2), handshake_h1 otherwise; connect_to "
                    "derives the protocol from the request version."
-                   " C13.2's port rule is a decision table (port x scheme security -> kept or omitted) evaluated abstractly; set_host_header is checked in normal form (value inserted only into a Vacant HOST entry); version tests are normalised by version_rel.",
+                   " C13.2's port rule is a decision table (port x scheme security -> kept or omitted) evaluated abstractly; set_host_header is checked in normal form (value inserted only into a Vacant HOST entry); version tests are normalised by version_rel."
+                   " As built now: C13.3 (request target on HTTP/1: h1table.py, the URI as a record of the abstract state, 120 scenarios), C13.4 (what leaves on HTTP/2: h2table.py, header map as a set, version as a cell, 48 scenarios), C13.5 (version stamp and sender per connection variant) and C13.6 (handshake selection: configured protocol x ALPN) are decision tables evaluated abstractly.",
     "trusted_base": ["rustc type checker (the builder type is the layer stack)", "tower ServiceBuilder applies Stack<Inner, Outer> outer-first", "http crate header / uri APIs"],
     "assumptions": [],
     "undecided": "the resulting header / URI values over the request grammar",
